@@ -141,7 +141,7 @@ FamConveyor(WL, CAP1) ==
 \* one workplace with two facilities, three workers with differing skills / operating licences /
 \* solo flags, individual absences of a worker and of a facility while allocated; task 1 needs
 \* a facility (several pairs), task 2 does not.
-FamPairs(WS, FSK, SOW, SOF, AB) ==
+FamPairs(WS, FSK, SOW, SOF, AB, ABF) ==
   { Cfg("pairs", 1,
         << [Task(6, 0, FALSE, 1, TRUE, 1, <<1>>, <<1>>, 0) EXCEPT !.wrule = wr, !.frule = fr],
            Task(2, 0, FALSE, 1, FALSE, 0, <<1>>, <<>>, 1) >>,
@@ -153,7 +153,7 @@ FamPairs(WS, FSK, SOW, SOF, AB) ==
         << [cap |-> 2, inputs |-> <<>>] >>,
         << [space |-> 2, children |-> <<>>] >>,
         Opt(<<>>, FALSE, "TSLACK", 12))
-    : ws \in WS, fsk \in [1..3 -> FSK], sow \in SOW, sof \in SOF, wab \in AB, fab \in AB,
+    : ws \in WS, fsk \in [1..3 -> FSK], sow \in SOW, sof \in SOF, wab \in AB, fab \in ABF,
       wr \in {"SSP", "HSV"}, fr \in {"SSP", "HSV"} }
 
 \* ---- FamDag: a component with two parents ----------------------------------------------------
@@ -298,9 +298,9 @@ Family(name, tier) ==
     [] name = "pairs" -> IF tier = 1
                          THEN FamPairs({<<1, 2, 1>>, <<2, 1, 1>>}, {<<1, 1>>, <<1, 0>>},
                                        {<<FALSE, FALSE, FALSE>>, <<FALSE, TRUE, FALSE>>, <<TRUE, FALSE, FALSE>>, <<FALSE, FALSE, TRUE>>},
-                                       {<<FALSE, FALSE>>, <<TRUE, FALSE>>, <<FALSE, TRUE>>}, {<<>>, <<2, 1>>})
+                                       {<<FALSE, FALSE>>, <<TRUE, FALSE>>, <<FALSE, TRUE>>}, {<<>>, <<2, 1>>}, {<<>>, <<0>>, <<2, 1>>})
                          ELSE FamPairs({<<1, 2, 1>>, <<2, 1, 1>>, <<1, 1, 2>>, <<2, 2, 2>>}, {<<1, 1>>, <<1, 0>>, <<0, 1>>},
-                                       [1..3 -> BOOLEAN], [1..2 -> BOOLEAN], {<<>>, <<0>>, <<1>>, <<2, 1>>})
+                                       [1..3 -> BOOLEAN], [1..2 -> BOOLEAN], {<<>>, <<0>>, <<1>>, <<2, 1>>}, {<<>>, <<0>>, <<1>>, <<2, 1>>})
     [] name = "dag"   -> FamDag
     \* two dependencies between the same pair of tasks
     [] name = "deps2" -> { Cfg("deps2", 1, [t \in 1..3 |-> PlainTask(w[t], r[t] - 1)],
